@@ -230,14 +230,14 @@ class Ctx:
         self.log("%s: %d cases, %d comparisons, %d mismatches" % (stage, v["cases"], v["checks"], len(v["mismatches"])))
         return v
 
-    def record(self, binary, comp, stage="record", extra=None, timeout=3600, env=None, name=None):
+    def record(self, binary, comp, stage="record", extra=None, timeout=3600, env=None, name=None, mode="record"):
         trace = self.path(name or ("trace-%s.ndjson" % stage))
-        info = self.drv(binary, [comp, "record", "--seed", str(self.seed), "--tier", self.tier, "--out", trace] + (extra or []),
+        info = self.drv(binary, [comp, mode, "--seed", str(self.seed), "--tier", self.tier, "--out", trace] + (extra or []),
                         timeout=timeout, env=env)
         return trace, info
 
     def validate(self, comp, module, cfg, trace, stage="validate", key_prefix=None, runs=1, timeout=3600, heap="12g",
-                 keyfn=None, env=None, deque=True):
+                 keyfn=None, env=None, deque=True, record_violations=True, need_note=None):
         """TLC checks a recorded trace against the trace spec (monitor style: MISMATCH lines)."""
         nlines = sum(1 for _ in open(trace))
         e = {"TRACE": trace}
@@ -247,6 +247,8 @@ class Ctx:
                      coverage=False)
         if "INCOMPLETE" in r["out"]:
             raise ToolError("trace spec %s did not consume the whole trace (%s)" % (module, stage))
+        if need_note and ('"NOTE %s"' % need_note) not in r["out"]:
+            raise ToolError("trace spec %s did not reach its judgement (%s) in stage %s" % (module, need_note, stage))
         mism = []
         notes = {}
         lines = None
@@ -258,6 +260,7 @@ class Ctx:
             elif line.startswith('"NOTE '):
                 tag = json.loads(line)[len("NOTE "):]
                 notes[tag] = notes.get(tag, 0) + 1
+        found = []
         for m in mism:
             got = m.get("got")
             ev = got.get("ev", "?") if isinstance(got, dict) else "?"
@@ -272,9 +275,11 @@ class Ctx:
             seg = lines[max(start - 1, 0):ln]
             if len(seg) > 400:
                 seg = seg[:5] + ["..."] + seg[-50:]
-            self.violations.append({"key": key, "stage": stage, "kind": "trace", "component": comp, "module": module,
-                                    "detail": {"line": ln, "event": got, "spec_demands": m.get("want"),
-                                               "trace_segment": seg, "seed": self.seed, "tier": self.tier}})
+            found.append({"key": key, "stage": stage, "kind": "trace", "component": comp, "module": module,
+                          "detail": {"line": ln, "event": got, "spec_demands": m.get("want"),
+                                     "trace_segment": seg, "seed": self.seed, "tier": self.tier}})
+        if record_violations:
+            self.violations += found
         self.traces += runs
         self.trace_events += nlines
         self.states += r.get("distinct", 0)
@@ -282,7 +287,7 @@ class Ctx:
         self.stages.append({"stage": stage, "kind": "I->S (recorded trace validated by TLC)", "module": module, "events": nlines,
                             "runs": runs, "mismatches": len(mism), "notes": notes, "wall_s": r["wall_s"]})
         self.log("%s: %d events validated, %d mismatches, %.1fs" % (stage, nlines, len(mism), r["wall_s"]))
-        return mism
+        return found
 
     def sample_trace(self, trace, k=3, stage="record"):
         with open(trace) as f:
